@@ -426,6 +426,162 @@ class ReorderDims(Contract):
 CONTRACTS += [ReorderDims(p) for p in (('x', 'y', 't'), ('y', 't', 'x'), ('x', 't', 'y'), ('t', 'x', 'y'), ('y', 'x', 't'), ('t', 'y', 'x'))]
 
 
+class SimpleOp(Contract):
+    """copy / subsetVariables / renameVariable / renameDimension / removeSingleton on a file with dimensions t, y (ARBITRARY
+    lengths) and s (length 1), variables v(t, y), u(t), w(y), p(t, s, y): the result is well-formed, holds exactly the expected
+    variables under the expected names and dimension tuples, every element is the corresponding source element, attributes
+    carried, fresh buffers, input unchanged"""
+    prop = 'C01'
+    max_paths = 80
+
+    vd = dict(v=('t', 'y'), u=('t',), w=('y',), p=('t', 's', 'y'))
+    OPS = {
+        'copy': ('copy', [], {}),
+        'subsetVariables': ('subsetVariables', [['v', 'w']], {}),
+        'subsetVariables(exclude)': ('subsetVariables', [['u']], dict(exclude=True)),
+        'renameVariable': ('renameVariable', ['v', 'renamed'], {}),
+        'renameDimension': ('renameDimension', ['t', 'time'], {}),
+        'removeSingleton': ('removeSingleton', [], {}),
+    }
+
+    def __init__(self, op):
+        self.op = op
+        self.meth, self.args, self.kw = self.OPS[op]
+        self.target = 'core/_files.py::PseudoNetCDFFile.' + self.meth
+        self.name = op
+
+    def inputs(self, ctx, I):
+        from pyvc import frontend
+        from pyvc.nparr import sym_array
+        self.n = dict(t=ctx.fresh('nt'), y=ctx.fresh('ny'), s=1)
+        mod = frontend.load('core/_variables.py')
+        cls = I.classref(mod, mod.find('PseudoNetCDFVariable')[0])
+
+        def var(name, dims):
+            a = sym_array(name, tuple(self.n[d] for d in dims), 'f')
+            a.cls = cls
+            a.attrs.update(dimensions=dims, _ncattrs=('units',), units='ppb')
+            return a
+        self.vars = {k: var(k, d) for k, d in self.vd.items()}
+        self.pre = {k: a.buf.get for k, a in self.vars.items()}
+        f = pnc_file(I, dimensions={'t': dim_obj(I, 't', self.n['t'], unlimited=True), 'y': dim_obj(I, 'y', self.n['y']), 's': dim_obj(I, 's', 1)},
+                     variables=dict(self.vars), attrs=dict(title='src'))
+        self.f = f
+        return dict(self=f)
+
+    def call_args(self, inp):
+        return [inp['self']] + [list(a) if isinstance(a, list) else a for a in self.args], dict(self.kw)
+
+    def requires(self, inp):
+        return And(ge(self.n['t'], 2), ge(self.n['y'], 2))
+
+    def small(self, inp):
+        return And(le(self.n['t'], 3), le(self.n['y'], 3))
+
+    def expected(self):
+        """{result variable name: (source variable, result dimension tuple, source index as a function of the result index)}"""
+        ident = lambda dims: (lambda idx: tuple(idx))
+        if self.op == 'copy':
+            return {k: (k, d, ident(d)) for k, d in self.vd.items()}, dict(t=self.n['t'], y=self.n['y'], s=1)
+        if self.op == 'subsetVariables':
+            return {k: (k, self.vd[k], ident(0)) for k in ('v', 'w')}, dict(t=self.n['t'], y=self.n['y'], s=1)
+        if self.op == 'subsetVariables(exclude)':
+            return {k: (k, self.vd[k], ident(0)) for k in ('v', 'w', 'p')}, dict(t=self.n['t'], y=self.n['y'], s=1)
+        if self.op == 'renameVariable':
+            return {('renamed' if k == 'v' else k): (k, d, ident(d)) for k, d in self.vd.items()}, dict(t=self.n['t'], y=self.n['y'], s=1)
+        if self.op == 'renameDimension':
+            rn = lambda d: tuple('time' if x == 't' else x for x in d)
+            return {k: (k, rn(d), ident(d)) for k, d in self.vd.items()}, dict(time=self.n['t'], y=self.n['y'], s=1)
+        if self.op == 'removeSingleton':
+            e = {k: (k, d, ident(d)) for k, d in self.vd.items() if k != 'p'}
+            e['p'] = ('p', ('t', 'y'), lambda idx: (idx[0], 0, idx[1]))
+            return e, dict(t=self.n['t'], y=self.n['y'])
+
+    def ensures(self, inp, res, I):
+        from pyvc.nparr import SArr
+        exp, dimlens = self.expected()
+        tname = 'time' if self.op == 'renameDimension' else 't'
+        out = wf_clauses(res, {tname: True, 'y': False})
+        if not hasattr(res, 'attrs') or 'variables' not in res.attrs:
+            return out
+        vs, dims = res.attrs['variables'], res.attrs['dimensions']
+        out += [('is-a-new-file', res is not self.f), ('file attributes carried', res.attrs.get('title') == 'src'),
+                ('exactly the expected variables', sorted(vs.keys()) == sorted(exp.keys())),
+                ('exactly the expected dimensions', sorted(dims.keys()) == sorted(dimlens.keys())
+                 and And(*[eq(dims[d].attrs['_len'], n) for d, n in dimlens.items() if d in dims]))]
+        q = [z3.Int('q0'), z3.Int('q1'), z3.Int('q2')]
+        for rk, (sk, rdims, srcidx) in exp.items():
+            X = vs.get(rk)
+            if not isinstance(X, SArr):
+                continue
+            ok = tuple(X.attrs.get('dimensions', ())) == rdims and X.ndim == len(rdims)
+            out.append(('%s: dimension tuple %r' % (rk, rdims), ok))
+            if not ok:
+                continue
+            idx = q[:len(rdims)]
+            rng = And(*[And(ge(i, 0), lt(i, dimlens[d])) for i, d in zip(idx, rdims)])
+            si = srcidx(idx)
+            out += [('%s: every element is the source element' % rk, Implies(rng, eq(X.get(tuple(idx)), self.pre[sk](si)))),
+                    ('%s: source unchanged' % rk, Implies(rng, eq(self.vars[sk].buf.get(si), self.pre[sk](si)))),
+                    ('%s: fresh buffer' % rk, all(X.buf is not a.buf for a in self.vars.values())),
+                    ('%s: attributes carried' % rk, X.attrs.get('units') == 'ppb')]
+        out.append(('input keeps its variables and dimensions', sorted(self.f.attrs['variables'].keys()) == sorted(self.vd) and sorted(self.f.attrs['dimensions'].keys()) == ['s', 't', 'y']
+                    and all(self.f.attrs['variables'][k] is self.vars[k] and tuple(self.vars[k].attrs['dimensions']) == self.vd[k] for k in self.vd)))
+        return out
+
+    # -- replay on the real function -----------------------------------------------------------------------------------
+    def concretize(self, model, inp):
+        from pyvc.verify import model_value
+        return dict(op=self.op, nt=model_value(model, self.n['t']), ny=model_value(model, self.n['y']))
+
+    def concretize_without_model(self, inp):
+        return dict(op=self.op, nt=3, ny=4)
+
+    def replay(self, c):
+        import numpy as np
+        P = import_real()
+        for nt, ny in ((int(c['nt']), int(c['ny'])), (3, 4)):
+            if not (2 <= nt <= 20 and 2 <= ny <= 20):
+                continue
+            f = P.PseudoNetCDFFile()
+            f.createDimension('t', nt).setunlimited(True)
+            f.createDimension('y', ny)
+            f.createDimension('s', 1)
+            f.title = 'src'
+            rng = np.random.default_rng(9)
+            n = dict(t=nt, y=ny, s=1)
+            self.n = n
+            data = {k: rng.random(tuple(n[d] for d in dims)) for k, dims in self.vd.items()}
+            for k, dims in self.vd.items():
+                f.createVariable(k, 'd', dims, values=data[k].copy(), units='ppb')
+            try:
+                g = getattr(f, self.meth)(*[list(a) if isinstance(a, list) else a for a in self.args], **self.kw)
+            except Exception as e:
+                return False, dict(raised=type(e).__name__, message=str(e)[:160], op=self.op, nt=nt, ny=ny)
+            exp, dimlens = self.expected()
+            bad = []
+            if sorted(g.dimensions.keys()) != sorted(dimlens.keys()) or any(len(g.dimensions[d]) != int(dimlens[d]) for d in dimlens if d in g.dimensions):
+                bad.append('dimensions %r expected %r' % ({d: len(v) for d, v in g.dimensions.items()}, {d: int(v) for d, v in dimlens.items()}))
+            if sorted(g.variables.keys()) != sorted(exp.keys()):
+                bad.append('variables %r expected %r' % (sorted(g.variables.keys()), sorted(exp.keys())))
+            for rk, (sk, rdims, srcidx) in exp.items():
+                if rk not in g.variables:
+                    continue
+                gv = g.variables[rk]
+                e = data[sk].reshape(tuple(len(g.dimensions[d]) for d in rdims)) if all(d in g.dimensions for d in rdims) else None
+                if tuple(gv.dimensions) != rdims or e is None or gv.shape != e.shape or not np.array_equal(np.asarray(gv[...]), e):
+                    bad.append('%s: dimensions %r shape %r' % (rk, tuple(gv.dimensions), gv.shape))
+            for k in self.vd:
+                if k not in f.variables or not np.array_equal(np.asarray(f.variables[k][...]), data[k]) or tuple(f.variables[k].dimensions) != self.vd[k]:
+                    bad.append('input variable %s changed' % k)
+            if bad:
+                return False, dict(op=self.op, nt=nt, ny=ny, failed=bad)
+        return True, dict(op=self.op)
+
+
+CONTRACTS += [SimpleOp(k) for k in SimpleOp.OPS]
+
+
 # ---------------------------------------------------------------------------
 # bounded stand-in
 # ---------------------------------------------------------------------------
@@ -499,7 +655,7 @@ def bounded_replay(p):
 META = dict(
     level='other',
     technique='contracts proved on the dimension/attribute book-keeping and on the well-formedness of the results of five whole operations (pyvc) + bounded run-time contract wf(result) over operation sequences',
-    text='Proved for files of ANY size: reorderDimensions for all 6 orders of three dimensions (dimension tuples, shapes, every element at the permuted index, input unchanged); the results of sliceDimensions (6 selector kinds), applyAlongDimensions, stack (2, 3 files), pncbo and mask are well-formed (dimension names exist, '
+    text='Proved for files of ANY size: copy, subsetVariables (include / exclude), renameVariable, renameDimension, removeSingleton (expected variables, dimension tuples, every element, attributes, fresh buffers, input unchanged); reorderDimensions for all 6 orders of three dimensions (dimension tuples, shapes, every element at the permuted index, input unchanged); the results of sliceDimensions (6 selector kinds), applyAlongDimensions, stack (2, 3 files), pncbo and mask are well-formed (dimension names exist, '
          'shape = dimension lengths in order, unlimited flags kept, listed attributes retrievable). Proved (all inputs): dimension objects store length/flag, attribute list book-keeping of __setattr__/__delattr__, allocation of plain and masked variables from the parent dimension lengths (ranks 0,1,2,4; symbolic lengths), '
          'copyDimension length and unlimited-flag propagation. Bounded (never counted as proved): wf(result) checked at run '
          'time on the real operations for all catalogue sequences up to the stated length; numpy shape semantics cannot be '
